@@ -355,6 +355,7 @@ class Executor(object):
         s.limit_is_hang = False
         s.atomic_now = False
         s.preempt_bound = 0
+        s.preempt_in_cs = False
         s.preempt_range = None
         s.race_detect = False
         s.tape = None
